@@ -24,6 +24,10 @@ BUILT = {
             "Both directions at every boundary: the limit's diagnostic is reported for the measured object iff n > L and for no other object, over 21 kinds of line (code, // comment, first/interior/last line of a block comment, "
             "last line with and without newline...), body shapes, positions and surrounding functions.",
             "Contexts are sampled; widths are ASCII visual columns.", "§4.3"),
+    "C07": ("runtime monitor of Context.pop_tokens over generated programs (tiling / count / alignment / depth invariants) + fault injection of unrecognisable fragments at generated statement boundaries",
+            "A test-side monitor records every token pop; on generated conforming and violating files the pops must tile the token list, and on conforming files the statement count must equal the model's, statements must start and end at line ends and the scope must be back at file level after each function. "
+            "Eight self-delimiting garbage fragments inserted at generated boundaries (and as last line with/without newline) must stop the run with a fatal diagnostic, never be dropped under an OK! verdict.",
+            "pop_tokens is trusted to be the only token consumer (asserted); unrecognisable text is limited to the fragment list.", "§4.7"),
     "C08": ("generated reports (family members, stacked multi-diagnostic variants, lexical multi-highlight diagnostics, non-ASCII) with a well-formedness + differential (JSON vs humanized) oracle; exhaustive comparator laws",
             "Every diagnostic is checked against the published catalogue and the file bounds, printed order must ascend, and the JSON report must describe the same files, verdicts and diagnostics in the same order as the humanized one "
             "(in-process formatters and CLI). The Error comparator is checked for irreflexivity, asymmetry, transitivity and position-consistency over all pairs/triples of a 72-object domain.",
